@@ -1,6 +1,6 @@
 /*
  * uf_hash.h - memhash() as an uninterpreted, *injective* function of (kind, bytes, length): a table of the calls made so
- * far; equal inputs get the stored digest, a new input gets a fresh nondeterministic digest that differs (in its first 8
+ * far (keyed by hash kind, seed identity when UF_SEED_MATTERS, bytes, length); equal inputs get the stored digest, a new input gets a fresh nondeterministic digest that differs (in its first 8
  * bytes, so that reduced hash sizes stay injective too) from every digest handed out before and from the ZERO / INVALID
  * markers.  "The block hash is collision-free on the blocks of this stripe" is an explicit assumption of C01/C04/C05/C06/C19;
  * the real digests are checked for stability in C16.
@@ -19,7 +19,7 @@
 #endif
 #define UFW (UFBS / 8)
 
-struct uf_ent { unsigned kind; unsigned size; uint64_t w[UFW]; uint64_t d[2]; };
+struct uf_ent { unsigned kind; const void* seed; unsigned size; uint64_t w[UFW]; uint64_t d[2]; };
 static struct uf_ent uf_tab[UFK];
 static unsigned uf_n;
 
@@ -33,13 +33,13 @@ static inline void uf_load(uint64_t* w, const void* src, size_t size)
 		w[i] = v;
 	}
 }
-static inline void uf_digest(unsigned kind, const void* src, size_t size, uint64_t* d)
+static inline void uf_digest_seed(unsigned kind, const void* seed, const void* src, size_t size, uint64_t* d)
 {
 	uint64_t w[UFW]; unsigned i, k; int found = -1;
 	VF_ASSERT(size <= UFBS, "harness: hashed region within one block");
 	uf_load(w, src, size);
 	for (i = 0; i < UFK; ++i) {
-		if (i < uf_n && uf_tab[i].kind == kind && uf_tab[i].size == size) {
+		if (i < uf_n && uf_tab[i].kind == kind && uf_tab[i].seed == seed && uf_tab[i].size == size) {
 			int same = 1;
 			for (k = 0; k < UFW; ++k) same &= (uf_tab[i].w[k] == w[k]);
 			if (same) found = (int)i;
@@ -50,16 +50,21 @@ static inline void uf_digest(unsigned kind, const void* src, size_t size, uint64
 	d[0] = vf_in_u64(); d[1] = vf_in_u64();
 	VF_ASSUME(d[0] != 0 && d[0] != ~(uint64_t)0);          /* not the INVALID (00..) / ZERO (ff..) markers */
 	for (i = 0; i < UFK; ++i) if (i < uf_n) VF_ASSUME(uf_tab[i].d[0] != d[0]);   /* injective */
-	uf_tab[uf_n].kind = kind; uf_tab[uf_n].size = (unsigned)size;
+	uf_tab[uf_n].kind = kind; uf_tab[uf_n].seed = seed; uf_tab[uf_n].size = (unsigned)size;
 	for (k = 0; k < UFW; ++k) uf_tab[uf_n].w[k] = w[k];
 	uf_tab[uf_n].d[0] = d[0]; uf_tab[uf_n].d[1] = d[1];
 	++uf_n;
 }
+static inline void uf_digest(unsigned kind, const void* src, size_t size, uint64_t* d) { uf_digest_seed(kind, (const void*)0, src, size, d); }
 void memhash(unsigned kind, const unsigned char* seed, void* digest, const void* src, size_t size)
 {
 	uint64_t d[2];
+#ifdef UF_SEED_MATTERS
+	uf_digest_seed(kind, seed, src, size, d);
+#else
 	(void)seed;
 	uf_digest(kind, src, size, d);
+#endif
 	memcpy(digest, d, 16);
 }
 #endif
